@@ -1535,6 +1535,7 @@ class Node():
         # The n'th argument is placed at the n'th+1 children position
         # because the 1st child is the routine reference
         if keep_name_in_context and hasattr(self.parent, "argument_names") \
+                and self.position > 0 \
                 and self.parent.argument_names[self.position - 1] is not None:
             # If it is a named context it will have a specific method for
             # replacing the node while keeping the name
